@@ -116,6 +116,13 @@ class SimE(Simulator):
             elif r < 0.5:
                 ops.append(["user", rng.choice(["Set1", "Valve", "Boom", "LongA", "BadArgs"])])
                 ops.append(["tick", rng.choice([1, 2, 4]), dt])
+            elif r < 0.58:
+                # a command button that drives an output, pressed at a drawn distance after the control command (also in
+                # the one-tick window in which a Stop is under way)
+                if ops and ops[-1][0] == "tick" and ops[-1][1] > 1 and rng.random() < 0.6:
+                    ops[-1] = ["tick", 1, ops[-1][2]]
+                ops.append(["user", rng.choice(["OpenValve", "Full"])])
+                ops.append(["tick", rng.choice([1, 2, 4]), dt])
         ops.append(["tick", rng.randint(2, 10), 0.1])
         ops.append(["report"])
         return {"cfg": {"recovery": False, "runlog_every": 3}, "method": method, "ops": ops}
@@ -352,7 +359,12 @@ class SimE(Simulator):
             method = method[:k] + [["S%03d" % k, rng.choice(["Stop", "Restart"])]] + method[k:]
         if rng.random() < 0.5:
             method = [["F000", "Mark: first"]] + method      # "runs again from its first line" is observable
-        ops: list[list] = [["user", "Start"]]
+        ops: list[list] = []
+        if rng.random() < 0.15:
+            # a command button pressed while no run is active; the command is still running when the run that is started
+            # next gets stopped or restarted
+            ops += [["user", rng.choice(["Churn", "Churn", "Spin"])], ["tick", rng.choice([1, 2, 4]), 0.1]]
+        ops.append(["user", "Start"])
         for i in range(rng.randint(1, 4)):
             ops.append(["tick", rng.choice([1, 2, 3, 4, 5, 6, 8, 11, 17]), 0.1])
             r = rng.random()
@@ -366,7 +378,7 @@ class SimE(Simulator):
                     ops.append(["user", "Start"])
             elif r < 0.88:
                 # a command button: once, twice in one gap (double click), or in the tick in which the method issues it
-                c = rng.choice(["Spin", "Spin", "Spin", "Boom", "Valve"])
+                c = rng.choice(["Spin", "Spin", "Churn", "Boom", "Valve"])
                 ops.append(["user", c])
                 if rng.random() < 0.5:
                     ops.append(["user", c])
@@ -524,7 +536,7 @@ class SimE(Simulator):
     # -- profile: local archive on an in-memory file system (C39)
     def _gen_archive(self, rng: random.Random, tier: str) -> dict:
         specials = ["a,b", "x;y", "back\\slash", 'q"uote', "it's", "semi; colon", "a, b; c", "tab\there", "comma,",
-                    "plain", "50 %", "a\\,b", "ends\\"]
+                    "plain", "50 %", "a\\,b", "ends\\", "cr\rx", "two\r\rcr", "ff\x0cx", "vt\x0bx", "nel\x85x"]
         method = []
         n = rng.randint(2, 9)
         for i in range(n):
@@ -672,11 +684,13 @@ class SimE(Simulator):
                 from .oracles_exec import live_records
                 w.final_records = live_records(w)
                 w.final_method_state = w.method_state()
+                sent_stop = False
                 if w.state not in ("Stopped", "Restarting"):
-                    w.user_command("Stop")
+                    sent_stop = w.user_command("Stop")
                 for _ in range(4):
                     w.tick(0.1)
-                w.ended_with_stop = w.state == "Stopped"
+                # (a command a user started while no run was active is not ended by a Stop that was never needed)
+                w.ended_with_stop = w.state == "Stopped" and (sent_stop or not w.uod.command_instances)
                 fp.append("endstop")
             else:
                 from . import ops_ext
